@@ -1,5 +1,19 @@
 # per-property configuration of the check driver
 PROPS = {
+    "C03": {
+        "level_text": "Each peer-facing decoder / protocol step is executed symbolically on a byte string of symbolic length and content; every Go runtime check (index, slice, nil, make, type assertion, explicit panic) is a solver query on every path, loops carry unwinding checks, and every allocation whose size depends on the input is compared with 64*len+4096.",
+        "level_note": "Bounded by the input lengths in evidence.bounds; cryptographic callees are contract stubs (result and error both nondeterministic); panics and allocation inside dependencies are outside the claim.",
+        "explanation": "no-panic / termination / allocation-bound harness per entry point",
+        "assumptions": ["dependency functions do not panic and allocate proportionally", "strings.Split abstracted for long inputs in the challenge decoder"],
+        "outside": ["inputs longer than the stated bounds", "util.UnmarshalTokenKey (encoding/asn1 is reflection based; not encodable)"],
+    },
+    "C04": {
+        "level_text": "Encoders and decoders (real cryptobyte String/Builder SSA) are executed symbolically: round trip of every well-formed value within the field bounds, canonical re-encoding of every accepted byte string (also on reused objects holding an arbitrary earlier value and cached encoding), and type separation.",
+        "level_note": "Bounded by the field / input lengths in evidence.bounds; lengths of small variable fields are case-split.",
+        "explanation": "rt_ (value -> bytes -> value), canon_ (accepted bytes -> value -> bytes), typesep_ harnesses per wire structure",
+        "assumptions": ["well-formed: fixed-size fields have their RFC sizes; issuer name non-empty; origin info elements comma-free"],
+        "outside": ["fields longer than the stated bounds", "EncapKey (needs the HPKE model; covered under C18/C07 harnesses)"],
+    },
     "C19": {
         "level_text": "Every function of quicwire/wire.go is executed symbolically from its SSA; for all 2^62 values, all buffers up to the stated lengths with symbolic spare capacity, and all declared lengths the solver shows the RFC 9000 oracle assertions unsat-to-violate; bounded only in buffer length.",
         "level_note": "Trusted: go/ssa construction, the engine's encoding of Go semantics (Appendix A of DESIGN.md), z3. Bounds: decoder inputs <= 12 bytes, payloads <= 70 (quick) / 16400 (thorough) bytes.",
